@@ -657,7 +657,7 @@ impl Prop for History {
                 Stream::new("corpus", 64, 1600).asan(64),
                 Stream::new("soak", 16, 64).asan(4),
             ],
-            Which::NoStale => vec![Stream::new("random", 48000, 2400000).miri(12), Stream::new("exhaustive", 567, 567).miri(0), Stream::new("soak", 16, 64)],
+            Which::NoStale => vec![Stream::new("random", 48000, 2400000).miri(12), Stream::new("exhaustive", 648, 648).miri(0), Stream::new("soak", 16, 64)],
             Which::Registry => vec![Stream::new("core", 16000, 800000).miri(8), Stream::new("bridge", 4000, 200000).miri(4)],
         }
     }
@@ -669,7 +669,7 @@ impl Prop for History {
         }
     }
     fn run(&self, cx: &mut Cx, stream: &str, idx: u64) {
-        let lang = LANGS[(idx % 7) as usize];
+        let lang = LANGS[(idx % NL) as usize];
         match (self.0, stream) {
             (Which::NoCrash, "hist") => self.c01_case(cx, lang),
             (Which::NoCrash, "long") => self.c01_long(cx, lang),
@@ -717,8 +717,8 @@ impl Prop for History {
             }
             (Which::NoStale, "exhaustive") => {
                 // case = (language, first two operations); enumerates every continuation up to the bound
-                let l = LANGS[(idx % 7) as usize];
-                let head = (idx / 7) as usize; // 0..81
+                let l = LANGS[(idx % NL) as usize];
+                let head = (idx / NL) as usize; // 0..81
                 let (o1, o2) = (head / EXH_OPS, head % EXH_OPS);
                 let maxlen = if cx.tier == Tier::Thorough { 6 } else { 5 };
                 let mut total = 0u64;
